@@ -46,8 +46,8 @@ ALL = '{"consul", "etcd", "memberlist"}'
 INV = "Serial SeenChain NoLostNoPhantom SawCurrent"
 
 
-def subst(nc, ops, maxerr, emit, backends=ALL, secondaries='{"none"}', limit=10, delete=False, inv=INV, same=False, nw=0):
-    return {"@@NC@@": nc, "@@OPS@@": ops, "@@BACKENDS@@": backends, "@@LIMIT@@": limit, "@@MAXERR@@": maxerr,
+def subst(nc, ops, maxerr, emit, backends=ALL, secondaries='{"none"}', limits="{10}", delete=False, inv=INV, same=False, nw=0):
+    return {"@@NC@@": nc, "@@OPS@@": ops, "@@BACKENDS@@": backends, "@@LIMITS@@": limits, "@@MAXERR@@": maxerr,
             "@@SECONDARIES@@": secondaries, "@@DELETE@@": "TRUE" if delete else "FALSE", "@@SAME@@": "TRUE" if same else "FALSE", "@@NW@@": nw,
             "@@EMIT@@": "TRUE" if emit else "FALSE", "@@INV@@": inv}
 
@@ -209,10 +209,15 @@ def run(ctx):
     #    memberlist's 1 s sleep after "no change detected" runs on the bubble clock; the quick tier has the latter
     #    in the 2x1 exhaustion graph only, to stay within its time budget)
     gens = [("gen2x2", tlc(ctx, "gen 2x2", subst(2, 2, 1, True, secondaries='{"none", "consul", "memberlist"}', same=thorough), timeout=600)),
-            ("exhaust", tlc(ctx, "gen exhaust", subst(2, 1, 10, True, same=True), timeout=600))]
+            ("exhaust", tlc(ctx, "gen exhaust", subst(2, 1, 10, True, same=True), timeout=600)),
+            # retry limit 2 on every store (consul Config.MaxCasRetries; etcd Client.cfg.MaxRetries and memberlist
+            # KV.maxCasRetries set by the harness): a call that loses the race on every attempt - conflicts alone, no
+            # error from f - must report failure and leave the value alone, bare and behind the wrappers
+            ("limit2", tlc(ctx, "gen limit 2", subst(2, 2, 2 if thorough else 0, True, limits="{2, 3}" if thorough else "{2}",
+                                                     secondaries='{"none", "consul"}', same=thorough), timeout=600))]
     if thorough:
-        # the Consul client with a configured limit of 3 (Config.MaxCasRetries); 3 callers x 1 call behind every wrapper
-        gens.append(("limit3", tlc(ctx, "gen consul limit 3", subst(2, 2, 3, True, backends='{"consul"}', limit=3), timeout=600)))
+        # 3 callers x 1 call behind every wrapper, with the default limit and with limit 2
+        gens.append(("limit2x3", tlc(ctx, "gen limit 2, 3 callers", subst(3, 1, 2, True, limits="{2}", secondaries='{"none", "consul"}', same=True), timeout=600)))
         gens.append(("gen3x1", tlc(ctx, "gen 3x1", subst(3, 1, 1, True, secondaries='{"none", "consul", "memberlist"}', same=True), timeout=600)))
         # memberlist: "no change detected" as often as the limit allows (9 sleeps, then the call fails), 2 callers x 2 calls
         gens.append(("nochange", tlc(ctx, "gen memberlist no-change", subst(2, 2, 10, True, backends='{"memberlist"}', same=True), timeout=600)))
